@@ -125,7 +125,8 @@ func (y *c08Sys) Letters(s *c08State) []engine.Letter {
 		{Name: "L2Send(alice->bob,1l2x)", Data: c08L2Send{}},
 	}
 	// a deposit whose hook is a correctly signed tx of the recipient that immediately withdraws it again
-	ls = append(ls, engine.Letter{Name: "L1Deposit(to=alice,1uxx,data=hook[alice withdraws 1l2x])", Data: c08L1Deposit{alice, 1, "uxx", []byte("HOOK:withdraw")}})
+	// (two messages, the withdrawal first: every hook message's events have to reach the relayer)
+	ls = append(ls, engine.Letter{Name: "L1Deposit(to=alice,2uxx,data=hook[alice withdraws 1l2x; alice sends 1l2x to bob])", Data: c08L1Deposit{alice, 2, "uxx", []byte("HOOK:withdraw")}})
 	for _, who := range []string{"alice", "bob"} {
 		ls = append(ls, engine.Letter{Name: fmt.Sprintf("L2Withdraw(%s,1l2x)", who), Data: c08L2Withdraw{who, "uxx"}})
 	}
@@ -207,7 +208,8 @@ func (y *c08Sys) apply(s, c *c08State, data any) (string, *engine.Violation) {
 			acc := s.w2.AK.GetAccount(c.c2, alice)
 			wmsg := opchildtypes.NewMsgInitiateTokenWithdrawal(alice.String(), alice.String(), sdk.NewInt64Coin(l2of("uxx"), 1))
 			key := world.SecpKey("alice")
-			d.data = signHookTx(s.w2, []sdk.Msg{wmsg}, key, key.PubKey(), acc.GetAccountNumber(), acc.GetSequence(), c.c2.ChainID())
+			smsg := banktypes.NewMsgSend(alice, world.Addr("bob"), sdk.NewCoins(sdk.NewInt64Coin(l2of("uxx"), 1)))
+			d.data = signHookTx(s.w2, []sdk.Msg{wmsg, smsg}, key, key.PubKey(), acc.GetAccountNumber(), acc.GetSequence(), c.c2.ChainID())
 		}
 		res := s.w1.Deliver(c.c1, ophosttypes.NewMsgInitiateTokenDeposit(alice.String(), 1, d.to, world.Coin(d.denom, d.amt), d.data))
 		if !res.OK() {
@@ -481,7 +483,7 @@ func init() {
 			res.Absorb("c08", rep)
 			res.Coverage["drains"] = y.drains.Load()
 			res.Coverage["drain_transitions"] = y.drainTx.Load()
-			res.Coverage["alphabet"] = "L1Deposit(alice; to∈{alice,garbage}; 1uxx|2uyy; data∈{∅, undecodable, a signed hook tx in which the recipient withdraws the deposit again}) ; L2Send; L2Withdraw(who∈{alice,bob}; l2x|l2y); RelayNextDeposit; RelayDuplicate; ProposeOutput(tree of all uncovered recorded withdrawals, independent builder); Challenge(delete newest); Advance(period); Claim(any covered unpaid); ClaimAgain(a paid one)"
+			res.Coverage["alphabet"] = "L1Deposit(alice; to∈{alice,garbage}; 1uxx|2uyy; data∈{∅, undecodable, a signed two-message hook tx in which the recipient withdraws half of the deposit again and sends the other half on}) ; L2Send; L2Withdraw(who∈{alice,bob}; l2x|l2y); RelayNextDeposit; RelayDuplicate; ProposeOutput(tree of all uncovered recorded withdrawals, independent builder); Challenge(delete newest); Advance(period); Claim(any covered unpaid); ClaimAgain(a paid one)"
 			res.Coverage["oracle"] = "in every state and for both denoms: escrow_L1 = supply_L2 + pending deposits + recorded unpaid withdrawals (queues built from parsed events only); from every distinct state the deterministic drain (relay all, propose, advance, claim all) must make every claim succeed exactly once, a second claim fail, escrow = L2 supply and the users' combined holdings = initial holdings"
 			res.Assumptions = []string{"faithful relayer; both chains run in one process and are connected only by parsed events"}
 			for _, k := range []string{"RelayNextDeposit/relayed-credited", "RelayNextDeposit/relayed-refunded", "RelayDuplicate/noop", "ProposeOutput/accepted", "L2Withdraw/accepted"} {
